@@ -1,5 +1,5 @@
 /- L0 facts about the accessors, Display and Default of FastStochastic (split from Lemmas/FastStochastic.lean so that a change to one method only invalidates the facts about that method) -/
-import TaRs.Lemmas.FastStochastic
+import TaRs.Lemmas.Core.FastStochastic
 import TaRs.Lemmas.Misc.Minimum
 import TaRs.Lemmas.Misc.Maximum
 set_option linter.unusedSectionVars false
